@@ -2,6 +2,7 @@
 import ast
 import z3
 from pyvc.sorts import *  # noqa
+from pyvc.sorts import _forall as SAFE_FORALL
 from pyvc.state import *  # noqa
 
 comp_ref = z3.Function('comp_ref', I, I, Val, I)   # fresh container of a comprehension, per key
@@ -247,7 +248,7 @@ class ExprMixin:
         kk = z3.Const('dcf_k', Val)
         newhas = fresh('dcf_has', HasArr)
         keep = is_VStr(kk) if tname == 'str' else z3.Or(is_VInt(kk), is_VBool(kk))
-        fact = z3.ForAll([kk], newhas[kk] == z3.And(h.has(s, kk), keep), patterns=[newhas[kk]])
+        fact = SAFE_FORALL([kk], newhas[kk] == z3.And(h.has(s, kk), keep), patterns=[newhas[kk]])
         st3, d = self.new_dict(st2.assume(fact), 'dict', has=newhas, val=h.valarr(s))
         return [Res(st3, VRef(d))]
       return self.then(self.ev(g.iter.func.value, st), kf)
@@ -285,11 +286,11 @@ class ExprMixin:
     newhas = fresh('dc_has', HasArr)
     newval = fresh('dc_val', ValMap)
     facts = [na >= h1.alloc,
-             z3.ForAll([kk], newhas[kk] == sel, patterns=[newhas[kk]]),
-             z3.ForAll([kk], z3.Implies(newhas[kk], z3.And(
+             SAFE_FORALL([kk], newhas[kk] == sel, patterns=[newhas[kk]]),
+             SAFE_FORALL([kk], z3.Implies(newhas[kk], z3.And(
                  newval[kk] == VRef(cref(kk)), cref(kk) >= h1.alloc, cref(kk) < na,
                  cls_fn(cref(kk)) == z3.IntVal(CLASSES[clsname]))), patterns=[newval[kk]]),
-             z3.ForAll([kk, k2], z3.Implies(z3.And(newhas[kk], newhas[k2], kk != k2),
+             SAFE_FORALL([kk, k2], z3.Implies(z3.And(newhas[kk], newhas[k2], kk != k2),
                                             cref(kk) != cref(k2)),
                        patterns=[z3.MultiPattern(cref(kk), cref(k2))])]
     r = z3.Int('dc_r')
@@ -297,15 +298,15 @@ class ExprMixin:
     for arr in ('dhas', 'dval', 'llen', 'lelt'):
       old = h1.get(arr)
       new = fresh('dc_' + arr, heap_sort(arr))
-      facts.append(z3.ForAll([r], z3.Implies(r < h1.alloc, new[r] == old[r]), patterns=[new[r]]))
+      facts.append(SAFE_FORALL([r], z3.Implies(r < h1.alloc, new[r] == old[r]), patterns=[new[r]]))
       newh = newh.set(arr, new)
     # contents of the fresh containers
     if setlike:
-      facts.append(z3.ForAll([kk], z3.Implies(newhas[kk],
+      facts.append(SAFE_FORALL([kk], z3.Implies(newhas[kk],
                                               newh.get('dhas')[cref(kk)] == h.hasarr(ref(sv))),
                              patterns=[newh.get('dhas')[cref(kk)]]))
     else:
-      facts.append(z3.ForAll([kk], z3.Implies(newhas[kk], z3.And(
+      facts.append(SAFE_FORALL([kk], z3.Implies(newhas[kk], z3.And(
           newh.get('llen')[cref(kk)] == h.len(ref(sv)),
           newh.get('lelt')[cref(kk)] == h.eltarr(ref(sv)))),
           patterns=[newh.get('llen')[cref(kk)]]))
@@ -437,7 +438,7 @@ class ExprMixin:
     ra, rb = ref(a), ref(b)
     i = z3.Int('lc_i')
     arr = fresh('cat', ValArr)
-    fact = z3.ForAll([i], arr[i] == z3.If(i < h.len(ra), h.elt(ra, i), h.elt(rb, i - h.len(ra))),
+    fact = SAFE_FORALL([i], arr[i] == z3.If(i < h.len(ra), h.elt(ra, i), h.elt(rb, i - h.len(ra))),
                      patterns=[arr[i]])
     st2, r = self.new_list_from(st.assume(fact), h.len(ra) + h.len(rb), arr)
     return Res(st2, VRef(r))
@@ -945,7 +946,7 @@ class ExprMixin:
           i = z3.Int('dl_i')
           old = h.eltarr(r)
           new = fresh('del', ValArr)
-          fact = z3.ForAll([i], new[i] == z3.If(i < j, old[i], old[i + 1]), patterns=[new[i]])
+          fact = SAFE_FORALL([i], new[i] == z3.If(i < j, old[i], old[i + 1]), patterns=[new[i]])
           h = h.set('lelt', z3.Store(h.get('lelt'), r, new))
           h = h.set('llen', z3.Store(h.get('llen'), r, n - 1))
           outs.append(Outcome('normal', st3.with_heap(h).assume(fact)))
@@ -982,7 +983,7 @@ class ExprMixin:
         i = z3.Int('gs_i')
         old = s5.heap.eltarr(r)
         arr = fresh('slc', ValArr)
-        fact = z3.ForAll([i], arr[i] == old[a + i * c], patterns=[arr[i]])
+        fact = SAFE_FORALL([i], arr[i] == old[a + i * c], patterns=[arr[i]])
         s6, nr = self.new_list_from(s5.assume(fact), ln, arr, 'list')
         out.append(Res(s6, VRef(nr)))
     return out
@@ -1088,9 +1089,9 @@ def dkeys_axioms(has):
   seq, cnt = dkeys_seq(has), dkeys_cnt(has)
   return z3.And(
       cnt >= 0,
-      z3.ForAll([i], z3.Implies(z3.And(0 <= i, i < cnt),
+      SAFE_FORALL([i], z3.Implies(z3.And(0 <= i, i < cnt),
                                 z3.And(has[seq[i]], dkeys_pos(has, seq[i]) == i)),
                 patterns=[seq[i]]),
-      z3.ForAll([k], z3.Implies(has[k], z3.And(0 <= dkeys_pos(has, k), dkeys_pos(has, k) < cnt,
+      SAFE_FORALL([k], z3.Implies(has[k], z3.And(0 <= dkeys_pos(has, k), dkeys_pos(has, k) < cnt,
                                                seq[dkeys_pos(has, k)] == k)),
                 patterns=[dkeys_pos(has, k)]))
